@@ -43,6 +43,38 @@ def random_case(rng, max_states=3, max_stack=2, max_trans=6, max_push=3, vcs=Non
     return c
 
 
+def path_case(rng, vcs=None):
+    """three or four states on a line: symbols are pushed in the first ones, popped in the later ones and the stack
+    runs empty in the LAST state only, which no transition leaves; the transitions are given back to front or in a
+    random order, with a few loops and side moves"""
+    n = rng.randint(3, 4)
+    m = 2
+    k = 2
+    trans = [[0, rng.randrange(k), 0, 1, [1, 0]]]
+    if rng.random() < 0.5:
+        trans.append([1, rng.randrange(k), 1, 1, [1, 1]])
+    if n == 3:
+        trans.append([1, rng.randrange(k), 1, 1, []] if rng.random() < 0.5 else [1, -1, 1, 1, []])
+        trans.append([1, -1 if rng.random() < 0.5 else rng.randrange(k), 0, 2, []])
+    else:
+        trans.append([1, rng.randrange(k), 1, 2, []])
+        trans.append([2, rng.randrange(k), 1, 2, []])
+        trans.append([2, -1 if rng.random() < 0.5 else rng.randrange(k), 0, 3, []])
+    for _ in range(rng.randint(0, 2)):
+        t = [rng.randrange(n - 1), rng.randrange(k), rng.randrange(m), rng.randrange(n - 1),
+             [rng.randrange(m) for _ in range(rng.choice([0, 1, 1, 2]))]]
+        if t not in trans:
+            trans.append(t)
+    r_ = rng.random()
+    if r_ < 0.5:
+        trans.reverse()
+    c = {"n": n, "m": m, "k": k, "trans": trans, "start": 0, "zstart": 0,
+         "finals": [s for s in range(n) if rng.random() < 0.3], "vc": rng.choice(vcs or ["str", "str", "int", "reserved", "tuple"])}
+    if r_ >= 0.7:
+        c["shuffle"] = rng.randrange(1 << 30)
+    return c
+
+
 def push_chain_case(rng, vcs=None):
     """one transition pushes three (or two) symbols at once; each of them is popped in a state of its own choice, so
     the conversion to a grammar has to guess the intermediate states of the push correctly"""
